@@ -12,7 +12,7 @@
    insertion order with distinct keys, field names / option names are Coq strings (ASCII).
    The sockets and the clock are explicit: the datagrams passed to sock.send are an output, the k-th call
    of time.time() (truncated by int()) is [c_clock k]. *)
-From Coq Require Import ZArith List Bool String Ascii.
+From Coq Require Import ZArith List Bool String Ascii Uint63.
 Require Import Rig.Generated.GenBoot Rig.Model.Base.
 Import ListNotations.
 Open Scope Z_scope.
@@ -364,23 +364,27 @@ Fixpoint run (step : dict -> call -> dict * outcome) (st : dict) (cs : list call
   end.
 
 (* ------------------------------------------------------------------ helpers of the correspondence harness *)
-(* pseudo-random image content, reproduced by the harness in Python *)
-Fixpoint lcg_bytes (n : nat) (x : Z) : bytes :=
+(* pseudo-random image content, reproduced by the harness in Python (machine integers: evaluation only) *)
+Fixpoint lcg_bytes (n : nat) (x : int) : bytes :=
   match n with
   | O => []
-  | S n' => let x' := (x * 1103515245 + 12345) mod 2147483648 in ((x' / 65536) mod 256) :: lcg_bytes n' x'
+  | S n' =>
+      let x' := Uint63.land (Uint63.add (Uint63.mul x 1103515245) 12345) 2147483647 in
+      Uint63.to_Z (Uint63.land (Uint63.lsr x' 16) 255) :: lcg_bytes n' x'
   end.
 
-(* 61-bit polynomial digest of a byte string *)
+Definition lcg_image (n seed : Z) : bytes := lcg_bytes (Z.to_nat n) (Uint63.of_Z seed).
+
+(* 63-bit polynomial digest of a byte string (wrapping machine arithmetic) *)
 Definition digest (b : bytes) : Z :=
-  fold_left (fun h x => (h * 1000003 + x + 1) mod 2305843009213693951) b 7.
+  Uint63.to_Z (fold_left (fun h x => Uint63.add (Uint63.mul h 1000003) (Uint63.add (Uint63.of_Z x) 1)) b 7%uint63).
 
 Definition clock_of (ts : list Z) : nat -> Z := fun k => nth k ts 0.
 
 Definition observe (o : outcome) :=
   (o_dest o, map (fun d => (len d, digest d)) (o_datagrams o),
    match o_result o with
-   | Ok fs => Ok (map f_default fs, digest (map (fun f => f_offset f + len (list_ascii_of_string (f_name f))) fs))
+   | Ok fs => Ok (map f_default fs)
    | Failed k => Failed k
    | OtherError => OtherError
    | OutOfFuel => OutOfFuel
